@@ -281,6 +281,29 @@ static bool obsEq(const Obs& a, const Obs& b)
          vecEq(a.interior, b.interior) && vecEq(a.v, b.v) && vecEq(a.p, b.p);
 }
 
+// ------------------------------------------------------------------ known situation "narrow class"
+// 0: every value strictly increasing and inside its own class; 1: values are out of their class ONLY in
+// classes narrower than 100 x the 1e-12 resolution of the class map (or than 64 ulp of their bounds) - the
+// situation of the known finding C09-class-narrower-than-precision; 2: any other failure of the shape.
+static int classifyShape(const Obs& o)
+{
+  if (o.failed) return 2;
+  size_t n = o.n;
+  if (o.v.size() != n || o.p.size() != n || o.B.size() != n + 1) return 2;
+  for (size_t i = 0; i + 1 < n; ++i)
+    if (!(o.v[i] < o.v[i + 1])) return 2;
+  bool out = false;
+  for (size_t i = 0; i < n; ++i)
+  {
+    if (o.B[i] <= o.v[i] && o.v[i] <= o.B[i + 1]) continue;
+    out = true;
+    double w = o.B[i + 1] - o.B[i];
+    double res = std::max(1e-10, 64 * 2.220446049250313e-16 * std::max(std::fabs(o.B[i]), std::fabs(o.B[i + 1])));
+    if (!(w >= 0 && w < res)) return 2;
+  }
+  return out ? 1 : 0;
+}
+
 // ------------------------------------------------------------------ encoding
 static long long fp(double x)
 {
@@ -378,6 +401,7 @@ static Obj encode(const Obs& o, const Cfg& c, const Obs* prev, const Obs* twin, 
     j.kv("dm", fp(dm / unit)).kv("pm", fp(pm / unit));
   }
   // history: bit-for-bit equality with the previous observation and with the fresh twin
+  j.kv("narrow", classifyShape(o) == 1); // for the signature of a known finding only; no predicate reads it
   j.kv("same", prev ? obsEq(o, *prev) : false);
   Obj tw;
   if (twinFailed || !twin || twin->failed) tw.kv("built", false);
@@ -869,19 +893,12 @@ public:
     return true;
   }
 
-  static bool shapeOk(const Obs& o, bool noEmptyClass)
+  static bool hasEmptyClass(const Obs& o)
   {
-    if (o.failed) return false;
-    size_t n = o.n;
-    if (o.v.size() != n || o.p.size() != n || o.B.size() != n + 1) return false;
-    if (noEmptyClass)
-      for (size_t i = 0; i < n; ++i)
-        if (!(o.B[i] < o.B[i + 1])) return false;
-    for (size_t i = 0; i + 1 < n; ++i)
-      if (!(o.v[i] < o.v[i + 1])) return false;
-    for (size_t i = 0; i < n; ++i)
-      if (!(o.B[i] <= o.v[i] && o.v[i] <= o.B[i + 1])) return false;
-    return true;
+    if (o.failed || o.B.size() != o.n + 1) return false;
+    for (size_t i = 0; i < o.n; ++i)
+      if (!(o.B[i] < o.B[i + 1])) return true;
+    return false;
   }
   // Steering around the known findings (ids given with --avoid): the next abstract state is
   // tried on a scratch object first; states in which the listed defect would show are not entered.
@@ -889,10 +906,12 @@ public:
   bool acceptable(const Cfg& next)
   {
     if (!regular(next)) return false;
-    const char* id = next.median ? "C09-median-values-leave-their-class" : "C09-class-narrower-than-precision";
-    bool noEmpty = avoid("C09-empty-class-equal-prob");
-    if (!avoid(id) && !noEmpty) return true;
-    bool shape = avoid(id);
+    // only the listed situations are avoided: a scratch object that fails in any OTHER way is entered,
+    // so that the real object shows the failure
+    bool avNarrow = !next.median && avoid("C09-class-narrower-than-precision");
+    bool avMedian = next.median && avoid("C09-median-values-leave-their-class");
+    bool avEmpty = avoid("C09-empty-class-equal-prob");
+    if (!avNarrow && !avMedian && !avEmpty) return true;
     try
     {
       Guard g(3);
@@ -909,7 +928,8 @@ public:
       {
         DistP d = buildFresh(c);
         Obs o = observe(*d, c);
-        bool bad = shape ? !shapeOk(o, noEmpty && c.kind() == "cont") : (c.kind() == "cont" && !shapeOk(o, true) && shapeOk(o, false));
+        int cls = classifyShape(o);
+        bool bad = (avNarrow && cls == 1) || (avMedian && cls != 0) || (avEmpty && c.kind() == "cont" && hasEmptyClass(o));
         if (bad) { ++steered; return false; }
       }
     }
